@@ -103,6 +103,39 @@ pub fn run(a: &Args) {
             check_apng(&mut o, &b, &mut rng);
         }
     }
+    // a long animation on a wide canvas: the row buffer is reused by all frames, so the allocation limit (default 64 MiB) must not run out after
+    // 64 MiB / row-bytes frames (20000x1 RGBA8: 80000 bytes per frame; frame 838 used to fail with LimitsExceeded)
+    {
+        use crate::pngbuild::*;
+        let (w, nframes) = (20000u32, if thorough { 1200u32 } else { 900u32 });
+        let raw = vec![0u8; 1 + 4 * w as usize];
+        let z = zlib_flate2(&raw, 9);
+        let mut chunks = vec![ihdr(w, 1, 8, 6, 0), actl_chunk(nframes, 0)];
+        let mut seq = 0u32;
+        for f in 0..nframes {
+            chunks.push(fctl_chunk(seq, w, 1, 0, 0, 1, 10, 0, 0)); seq += 1;
+            if f == 0 { chunks.push(Chunk::new(b"IDAT", z.clone())); } else { chunks.push(fdat_chunk(seq, &z)); seq += 1; }
+        }
+        chunks.push(Chunk::new(b"IEND", vec![]));
+        let bytes = assemble(&chunks);
+        o.mark(&format!("long animation {}x1 RGBA8 x {} frames (file {} bytes)", w, nframes, bytes.len()));
+        o.direct_checks += 1;
+        o.count("long-animation");
+        match open_reader(&bytes, &[0], Opts::default(), 0, None) {
+            Ok(Ok(mut rd)) => {
+                let mut delivered = 0u32;
+                let mut end = String::new();
+                for _ in 0..nframes + 2 {
+                    let (r, px) = do_next_frame(&mut rd, 0);
+                    if px.is_some() { delivered += 1; } else { end = r; break; }
+                }
+                if delivered != nframes || !end.starts_with("err:Param:PolledAfterEndOfImage") {
+                    o.violation(viol("wrong-number-of-frames-delivered", vec![("file", jstr("long animation on a wide canvas")), ("delivered", delivered.to_string()), ("expected_frames", nframes.to_string()), ("end", jstr(&end))]));
+                }
+            }
+            other => o.violation(viol("valid-apng-rejected", vec![("file", jstr("long animation on a wide canvas")), ("why", jstr(&format!("{:?}", other.map(|r| r.map(|_| "reader")))))])),
+        }
+    }
     o.mark("done");
     o.finish();
 }
